@@ -1,4 +1,5 @@
-(* Proofs about Model/Ws.v (C13). *)
+(* Proofs about Model/Ws.v (C13).  Since /repo 2ce90a9 + 20e6b35 no finding class is open: every
+   statement below is unguarded. *)
 From Coq Require Import List String Ascii ZArith Bool Lia.
 From AC Require Import Base.Sexp Base.Json Model.Ws.
 Import ListNotations.
@@ -6,28 +7,11 @@ Local Open Scope string_scope.
 Local Open Scope list_scope.
 
 Local Arguments mtype_of_string : simpl never.
-Local Arguments has_substring : simpl never.
 Local Arguments String.eqb : simpl never.
 Local Arguments step : simpl never.
 
 (* ------------------------------------------------------------------------------------------ *)
 (* small facts                                                                                 *)
-
-Lemma mtype_empty : mtype_of_string "" = None.
-Proof. reflexivity. Qed.
-
-Lemma first_bad_ok l : forallb is_error_obj l = true -> first_bad l = None.
-Proof.
-  induction l as [|e r IH]; simpl; intro H; [reflexivity|].
-  apply andb_true_iff in H as [He Hr]. destruct e; try discriminate. simpl in *. rewrite He. auto.
-Qed.
-
-Lemma first_bad_not_ok l : forallb is_error_obj l = false -> exists e, first_bad l = Some e.
-Proof.
-  induction l as [|e r IH]; simpl; intro H; [discriminate|].
-  destruct e; simpl in *; eauto.
-  destruct (jhas "message" kv); simpl in *; eauto.
-Qed.
 
 Lemma sent_of_app a b : sent_of (a ++ b) = sent_of a ++ sent_of b.
 Proof. unfold sent_of. apply flat_map_app. Qed.
@@ -35,256 +19,70 @@ Lemma yielded_of_app a b : yielded_of (a ++ b) = yielded_of a ++ yielded_of b.
 Proof. unfold yielded_of. apply flat_map_app. Qed.
 
 (* ------------------------------------------------------------------------------------------ *)
-(* case analysis of one frame                                                                  *)
+(* one frame                                                                                   *)
 
-Ltac brk :=
-  repeat (simpl in *;
-          match goal with
-          | |- context [match ?x with _ => _ end] =>
-              lazymatch x with
-              | context [match _ with _ => _ end] => fail
-              | _ => destruct x eqn:?
+(* before the ack: the handler's verdict as a function of the specification's classification *)
+Lemma await_exact rq f :
+  step rq AwaitAck f =
+    match skind_of f with
+    | SAck => match subscribe_msg rq with
+              | Some m => (Streaming, [ERecv; ESend m])
+              | None => (Done (RaisedOther SER_ERROR), [ERecv])
               end
-          end); simpl in *.
-
-(* the spec's ack is the handler's ack, for every frame *)
-Lemma ack_iff f : is_ack f = true <-> exists p, msg_type f = TKnown MAck p.
+    | _ => (Done (RaisedInvalid (match msg_type f with TInvalid => Some f | _ => None end)), [ERecv])
+    end.
 Proof.
-  unfold is_ack, skind_of, msg_type. split.
-  - destruct f as [s|j]; [discriminate|]. destruct j; try discriminate.
-    destruct (jlookup "type" kv) as [t|]; [|discriminate]. destruct t; try discriminate.
-    destruct (String.eqb s "") eqn:E.
-    + apply String.eqb_eq in E. subst. rewrite mtype_empty. discriminate.
-    + simpl. rewrite E. simpl. destruct (mtype_of_string s) as [m|]; [|discriminate].
-      destruct m; try discriminate; try (intros _; eexists; reflexivity); brk; discriminate.
-  - intros [p H]. destruct f as [s|j]; [discriminate|]. destruct j; try discriminate.
-    destruct (jlookup "type" kv) as [t|]; [|discriminate]. destruct t; simpl in *; try discriminate.
-    + destruct b; discriminate.
-    + destruct (negb (z =? 0)%Z); discriminate.
-    + destruct (String.eqb s "") eqn:E; simpl in *; [discriminate|].
-      destruct (mtype_of_string s) as [m|]; [|discriminate]. inversion H; subst. reflexivity.
-    + destruct l; discriminate.
-    + destruct kv0; discriminate.
+  unfold step, skind_of, msg_type.
+  destruct f as [s|j]; [reflexivity|]. destruct j; try reflexivity.
+  destruct (jlookup "type" kv) as [t|]; [|reflexivity]. destruct t; try reflexivity.
+  destruct (mtype_of_string s) as [m|]; [|reflexivity].
+  destruct m; try reflexivity.
+  - destruct (jlookup "payload" kv) as [q|]; [|reflexivity]. destruct q; try reflexivity.
+    destruct (jlookup "data" kv0) as [d|]; [|reflexivity]. destruct d; try reflexivity.
+    destruct (jlookup "errors" kv0) as [e|]; [|reflexivity]. destruct e; try reflexivity.
+    destruct l; [reflexivity|]. destruct (wf_errors (j :: l)); reflexivity.
+  - destruct (jlookup "payload" kv) as [q|]; [|reflexivity]. destruct q; try reflexivity.
+    destruct (wf_errors l); reflexivity.
 Qed.
 
-(* AwaitAck, every frame *)
 Lemma await_ack rq f : is_ack f = true ->
   step rq AwaitAck f =
     match subscribe_msg rq with
     | Some m => (Streaming, [ERecv; ESend m])
     | None => (Done (RaisedOther SER_ERROR), [ERecv])
     end.
-Proof. intro H. apply ack_iff in H as [p H]. unfold step. rewrite H. reflexivity. Qed.
+Proof. intro H. rewrite await_exact. unfold is_ack in H. destruct (skind_of f); try discriminate. reflexivity. Qed.
 
-Lemma await_not_ack rq f : is_ack f = false -> exists o, step rq AwaitAck f = (Done o, [ERecv]).
-Proof.
-  intro H. unfold step. destruct (msg_type f) eqn:E; eauto.
-  destruct t; eauto.
-  assert (is_ack f = true) by (apply ack_iff; eauto). congruence.
-Qed.
-
-(* the type-level crash class is exact *)
-Lemma type_crashes_iff f : type_crashes f = true <-> exists e, msg_type f = TCrash e.
-Proof.
-  unfold msg_type, type_crashes.
-  destruct f as [s|j]; [split; [discriminate|intros [e H]; discriminate]|].
-  destruct j; try (split; [eauto|reflexivity]).
-  destruct (jlookup "type" kv) as [t|]; [|split; [discriminate|intros [e H]; discriminate]].
-  destruct t; simpl; try (split; [discriminate|intros [e H]; discriminate]).
-  - destruct b; split; try discriminate; intros [e H]; discriminate.
-  - destruct (negb (z =? 0)%Z); split; try discriminate; intros [e H]; discriminate.
-  - destruct (String.eqb s ""); simpl; [split; [discriminate|intros [e H]; discriminate]|].
-    destruct (mtype_of_string s); split; try discriminate; intros [e H]; discriminate.
-  - destruct l; simpl; split; eauto; try discriminate. intros [e H]; discriminate.
-  - destruct kv0; simpl; split; eauto; try discriminate. intros [e H]; discriminate.
-Qed.
-
-Lemma shape_no_crash f e : type_crashes f = false -> msg_type f <> TCrash e.
-Proof.
-  intros H E. assert (type_crashes f = true) by (apply type_crashes_iff; eauto). congruence.
-Qed.
-
-(* AwaitAck outside the type-crash class: a first frame that is not the ack raises the invalid-message error *)
-Lemma await_invalid rq f : type_crashes f = false -> is_ack f = false ->
+Lemma await_invalid rq f : is_ack f = false ->
   exists m, step rq AwaitAck f = (Done (RaisedInvalid m), [ERecv]).
-Proof.
-  intros S A. unfold step. destruct (msg_type f) eqn:E; eauto.
-  - exfalso. exact (shape_no_crash f e S E).
-  - destruct t; eauto.
-    assert (is_ack f = true) by (apply ack_iff; eauto). congruence.
-Qed.
+Proof. intro H. rewrite await_exact. unfold is_ack in H. destruct (skind_of f); try discriminate; eauto. Qed.
 
-(* Streaming, every frame (no guard): what is sent, what is yielded, which phase follows.
-   The terminal outcome is left open here (exists o). *)
-Lemma stream_coarse rq f :
-  match skind_of f with
-  | SNext d => step rq Streaming f = (Streaming, ERecv :: if nonnull d then [EYield d] else [])
-  | SPing => step rq Streaming f = (Streaming, [ERecv; ESend pong_msg])
-  | SPong | SAck | SIgnored => step rq Streaming f = (Streaming, [ERecv])
-  | SComplete => step rq Streaming f = (Done Finished, [ERecv; EClose])
-  | SError _ | SMalformed => exists o, step rq Streaming f = (Done o, [ERecv])
-  end.
+(* once the stream is open: the handler's step IS the specification's, for every frame *)
+Lemma stream_exact rq f :
+  step rq Streaming f =
+    match skind_of f with
+    | SNext d => (Streaming, [ERecv; EYield d])
+    | SPing => (Streaming, [ERecv; ESend pong_msg])
+    | SPong | SAck | SIgnored => (Streaming, [ERecv])
+    | SComplete => (Done Finished, [ERecv; EClose])
+    | SError l => (Done (RaisedMulti l (frame_json f)), [ERecv])
+    | SNextErrors l => (Done (RaisedMulti l JNull), [ERecv])
+    | SMalformed => (Done (RaisedInvalid (Some f)), [ERecv])
+    end.
 Proof.
-  unfold step, skind_of, msg_type.
-  destruct f as [s|j]; [eauto|]. destruct j; eauto.
-  destruct (jlookup "type" kv) as [t|]; [|simpl; eauto].
-  destruct t; simpl; eauto.
-  - destruct b; simpl; eauto.
-  - destruct (negb (z =? 0)%Z); simpl; eauto.
-  - destruct (String.eqb s "") eqn:E; simpl.
-    + apply String.eqb_eq in E. subst. rewrite mtype_empty. eauto.
-    + destruct (mtype_of_string s) as [m|]; [|eauto].
-      destruct m; simpl; eauto.
-      * (* next *)
-        destruct (jlookup "payload" kv) as [p|]; simpl; eauto.
-        destruct p; simpl; eauto.
-        -- destruct (has_substring "data" s0); eauto.
-        -- destruct (existsb (is_str "data") l); eauto.
-        -- destruct (jlookup "data" kv0); eauto.
-      * (* error *)
-        destruct (jlookup "payload" kv) as [p|]; simpl; eauto.
-        destruct p; simpl; eauto.
-        -- destruct s0; eauto.
-        -- destruct (forallb is_error_obj l) eqn:F.
-           ++ rewrite (first_bad_ok _ F). eauto.
-           ++ destruct (first_bad l); eauto.
-        -- destruct kv0; eauto.
-  - destruct l; simpl; eauto.
-  - destruct kv0; simpl; eauto.
-Qed.
-
-(* Streaming: an error frame with a well-formed (or absent) payload raises the multi-error — no guard *)
-Lemma stream_error_exact rq f l : skind_of f = SError l ->
-  step rq Streaming f = (Done (RaisedMulti l (frame_json f)), [ERecv]).
-Proof.
-  unfold step, skind_of, msg_type.
-  destruct f as [s|j]; [discriminate|]. destruct j; try discriminate.
-  destruct (jlookup "type" kv) as [t|]; [|discriminate].
-  destruct t; try discriminate.
-  destruct (String.eqb s "") eqn:E; simpl; rewrite E; simpl.
-  - apply String.eqb_eq in E. subst. rewrite mtype_empty. discriminate.
-  - destruct (mtype_of_string s) as [m|]; [|discriminate].
-    destruct m; try discriminate.
-    + brk; discriminate.
-    + destruct (jlookup "payload" kv) as [p|]; simpl.
-      * destruct p; try discriminate. destruct (forallb is_error_obj l0) eqn:F; [|discriminate].
-        intros K. inversion K; subst. simpl. rewrite (first_bad_ok _ F). reflexivity.
-      * intros K. inversion K. reflexivity.
-Qed.
-
-(* the payload-level crash class is exact *)
-Lemma payload_crashes_iff f : payload_crashes f = true <->
-  exists t p e, msg_type f = TKnown t p /\ action_of t p = ACrash e.
-Proof.
-  unfold msg_type, payload_crashes.
-  destruct f as [s|j]; [split; [discriminate|intros (t' & p' & e' & H & _); discriminate]|].
-  destruct j; try (split; [discriminate|intros (t' & p' & e' & H & _); discriminate]).
-  destruct (jlookup "type" kv) as [t|]; [|split; [discriminate|intros (t' & p' & e' & H & _); discriminate]].
-  destruct t; simpl; try (split; [discriminate|intros (t' & p' & e' & H & _); discriminate]).
-  - destruct b; split; try discriminate; intros (t' & p' & e' & H & _); discriminate.
-  - destruct (negb (z =? 0)%Z); split; try discriminate; intros (t' & p' & e' & H & _); discriminate.
-  - destruct (String.eqb s "") eqn:E; simpl.
-    + apply String.eqb_eq in E. subst. rewrite mtype_empty.
-      split; [discriminate|intros (t' & p' & e' & H & _); discriminate].
-    + destruct (mtype_of_string s) as [m|]; [|split; [discriminate|intros (t' & p' & e' & H & _); discriminate]].
-      destruct m; try (split; [discriminate|intros (t' & p' & e' & H & A); inversion H; subst; discriminate]).
-      * (* next *)
-        destruct (jlookup "payload" kv) as [q|]; simpl.
-        -- destruct q; simpl;
-             try (split; [intros _; do 3 eexists; split; [reflexivity|reflexivity]|reflexivity]).
-           ++ split.
-              ** intro H. do 3 eexists. split; [reflexivity|]. simpl. rewrite H. reflexivity.
-              ** intros (t' & p' & e' & H & A). inversion H; subst. simpl in A.
-                 destruct (has_substring "data" s0); [reflexivity|discriminate].
-           ++ split.
-              ** intro H. do 3 eexists. split; [reflexivity|]. simpl. rewrite H. reflexivity.
-              ** intros (t' & p' & e' & H & A). inversion H; subst. simpl in A.
-                 destruct (existsb (is_str "data") l); [reflexivity|discriminate].
-           ++ split; [discriminate|]. intros (t' & p' & e' & H & A). inversion H; subst. simpl in A.
-              destruct (jlookup "data" kv0); discriminate.
-        -- split; [discriminate|]. intros (t' & p' & e' & H & A). inversion H; subst. discriminate.
-      * (* error *)
-        destruct (jlookup "payload" kv) as [q|]; simpl.
-        -- destruct q; simpl;
-             try (split; [intros _; do 3 eexists; split; [reflexivity|reflexivity]|reflexivity]).
-           ++ destruct s0; split; try discriminate.
-              ** intros (t' & p' & e' & H & A). inversion H; subst. discriminate.
-              ** intros _. do 3 eexists. split; reflexivity.
-              ** reflexivity.
-           ++ destruct (forallb is_error_obj l) eqn:F; simpl; split; try discriminate.
-              ** intros (t' & p' & e' & H & A). inversion H; subst. simpl in A.
-                 rewrite (first_bad_ok _ F) in A. discriminate.
-              ** intros _. destruct (first_bad_not_ok _ F) as [x X].
-                 do 3 eexists. split; [reflexivity|]. simpl. rewrite X. reflexivity.
-              ** reflexivity.
-           ++ destruct kv0; split; try discriminate.
-              ** intros (t' & p' & e' & H & A). inversion H; subst. discriminate.
-              ** intros _. do 3 eexists. split; reflexivity.
-              ** reflexivity.
-        -- split; [discriminate|]. intros (t' & p' & e' & H & A). inversion H; subst. discriminate.
-  - destruct l; simpl; split; try discriminate; intros (t' & p' & e' & H & _); discriminate.
-  - destruct kv0; simpl; split; try discriminate; intros (t' & p' & e' & H & _); discriminate.
-Qed.
-
-(* the crash class of the open stream is exact: these and only these frames end the run with a
-   non-protocol exception *)
-Definition crash_stream (f : frame) : bool := type_crashes f || payload_crashes f.
-
-Lemma crash_stream_iff rq f : crash_stream f = true <->
-  exists e, step rq Streaming f = (Done (RaisedOther e), [ERecv]).
-Proof.
-  unfold crash_stream. split.
-  - intro H. apply orb_true_iff in H as [H|H].
-    + apply type_crashes_iff in H as [e H]. unfold step. rewrite H. eauto.
-    + apply payload_crashes_iff in H as (t & p & e & H & A). unfold step. rewrite H, A. eauto.
-  - intros [e H]. unfold step in H. apply orb_true_iff.
-    destruct (msg_type f) eqn:M; try discriminate.
-    + left. apply type_crashes_iff. eauto.
-    + destruct (action_of t payload) eqn:A; try discriminate.
-      right. apply payload_crashes_iff. eauto 6.
-Qed.
-
-(* the two error payloads that are not a list but iterate as empty: an EMPTY multi-error *)
-Lemma odd_error_multi rq f : odd_empty_error f = true ->
-  step rq Streaming f = (Done (RaisedMulti [] (frame_json f)), [ERecv]).
-Proof.
-  unfold step, msg_type, odd_empty_error.
-  destruct f as [s|j]; [discriminate|]. destruct j; try discriminate.
-  destruct (jlookup "type" kv) as [t|]; [|discriminate]. destruct t; try discriminate.
-  destruct (String.eqb s "") eqn:E; simpl; rewrite E; simpl.
-  - apply String.eqb_eq in E. subst. rewrite mtype_empty. discriminate.
-  - destruct (mtype_of_string s) as [m|]; [|discriminate]. destruct m; try discriminate.
-    destruct (jlookup "payload" kv) as [q|]; [|discriminate].
-    destruct q; try discriminate; simpl.
-    + destruct s0; [reflexivity|discriminate].
-    + destruct kv0; [reflexivity|discriminate].
-Qed.
-
-(* Streaming, malformed frames outside the (exact) shape class raise the invalid-message error *)
-Lemma stream_malformed_exact rq f : shape_ok f = true -> skind_of f = SMalformed ->
-  step rq Streaming f = (Done (RaisedInvalid (Some f)), [ERecv]).
-Proof.
-  unfold shape_ok, step, skind_of, msg_type, type_crashes, payload_crashes, odd_empty_error.
-  destruct f as [s|j]; [reflexivity|]. destruct j; try discriminate.
-  destruct (jlookup "type" kv) as [t|]; [|reflexivity].
-  destruct t; simpl; try reflexivity.
-  - destruct b; reflexivity.
-  - destruct (negb (z =? 0)%Z); reflexivity.
-  - destruct (String.eqb s "") eqn:E; simpl; [reflexivity|].
-    destruct (mtype_of_string s) as [m|]; [|reflexivity].
-    destruct m; try discriminate.
-    + destruct (jlookup "payload" kv) as [p|]; simpl; [|reflexivity].
-      destruct p; simpl; try discriminate.
-      * destruct (has_substring "data" s0); [discriminate|reflexivity].
-      * destruct (existsb (is_str "data") l); [discriminate|reflexivity].
-      * intros _. destruct (jlookup "data" kv0); [discriminate|reflexivity].
-    + destruct (jlookup "payload" kv) as [p|]; simpl; [|discriminate].
-      destruct p; simpl; try discriminate.
-      * destruct s0; discriminate.
-      * destruct (forallb is_error_obj l); discriminate.
-      * destruct kv0; discriminate.
-  - destruct l; [reflexivity|discriminate].
-  - destruct kv0; [reflexivity|discriminate].
+  unfold step, skind_of, msg_type, wf_errors.
+  destruct f as [s|j]; [reflexivity|]. destruct j; try reflexivity.
+  destruct (jlookup "type" kv) as [t|]; [|reflexivity]. destruct t; try reflexivity.
+  destruct (mtype_of_string s) as [m|]; [|reflexivity].
+  destruct m; try reflexivity; simpl.
+  - (* next *)
+    destruct (jlookup "payload" kv) as [q|]; [|reflexivity]. destruct q; try reflexivity. simpl.
+    destruct (jlookup "data" kv0) as [d|]; [|reflexivity]. destruct d; try reflexivity.
+    destruct (jlookup "errors" kv0) as [e|]; [|reflexivity]. destruct e; try reflexivity.
+    destruct l; [reflexivity|]. simpl. destruct (is_error_obj j && forallb is_error_obj l); reflexivity.
+  - (* error *)
+    destruct (jlookup "payload" kv) as [q|]; [|reflexivity]. destruct q; try reflexivity. simpl.
+    destruct (forallb is_error_obj l); reflexivity.
 Qed.
 
 (* ------------------------------------------------------------------------------------------ *)
@@ -292,6 +90,33 @@ Qed.
 
 Lemma run_done rq o fs : run_from rq (Done o) fs = ([], Done o).
 Proof. induction fs as [|f r IH]; simpl; [reflexivity|]. rewrite IH. reflexivity. Qed.
+
+(* the whole streaming run IS the specification *)
+Lemma run_stream_conform rq r :
+  fst (run_from rq Streaming r) = fst (spec_stream r) /\
+  finish (snd (run_from rq Streaming r)) = snd (spec_stream r).
+Proof.
+  induction r as [|f r [IH1 IH2]]; [split; reflexivity|].
+  simpl. rewrite stream_exact.
+  destruct (skind_of f); rewrite ?run_done; try (split; reflexivity);
+    destruct (run_from rq Streaming r) as [e q]; destruct (spec_stream r) as [e' o'];
+    simpl in *; subst; split; reflexivity.
+Qed.
+
+Definition same_obs (a b : trace) : Prop :=
+  t_connect a = t_connect b /\ t_events a = t_events b /\ erase_msg (t_fin a) = erase_msg (t_fin b).
+
+Lemma conform c rq fs : same_obs (run_ws c rq fs) (spec_ws c rq fs).
+Proof.
+  unfold same_obs, run_ws, spec_ws. destruct fs as [|f r]; [simpl; auto|].
+  simpl. rewrite await_exact.
+  destruct (skind_of f); rewrite ?run_done; simpl; auto.
+  destruct (subscribe_msg rq) as [m|].
+  - destruct (run_stream_conform rq r) as [E F].
+    destruct (run_from rq Streaming r) as [e q]; destruct (spec_stream r) as [e' o'].
+    simpl in *. subst. auto.
+  - rewrite run_done. simpl. auto.
+Qed.
 
 Definition count_pings (fs : list frame) : nat :=
   List.length (filter (fun f => match skind_of f with SPing => true | _ => false end) fs).
@@ -301,16 +126,11 @@ Lemma run_stream_sent rq r :
   sent_of (fst (run_from rq Streaming r)) = repeat pong_msg (count_pings (spec_prefix r)).
 Proof.
   induction r as [|f r IH]; [reflexivity|].
-  simpl. unfold count_pings in *. pose proof (stream_coarse rq f) as C.
-  destruct (skind_of f) eqn:K; simpl;
-    try (rewrite C; destruct (run_from rq Streaming r) as [e q]; simpl in *; rewrite K; simpl;
-         try (destruct (nonnull d)); simpl; rewrite ?IH; reflexivity).
-  - (* complete *) rewrite C, run_done. simpl. rewrite K. reflexivity.
-  - destruct C as [o C]. rewrite C, run_done. simpl. rewrite K. reflexivity.
-  - destruct C as [o C]. rewrite C, run_done. simpl. rewrite K. reflexivity.
+  simpl. unfold count_pings in *. rewrite stream_exact.
+  destruct (skind_of f) eqn:K; simpl; rewrite ?run_done; simpl; rewrite ?K; simpl; try reflexivity;
+    destruct (run_from rq Streaming r) as [e q]; simpl in *; rewrite ?IH; reflexivity.
 Qed.
 
-(* the closed form of everything a run ever sends — no guard at all *)
 Lemma sent_closed_form c rq fs :
   sent_of (t_events (run_ws c rq fs)) =
     init_msg c ::
@@ -331,10 +151,9 @@ Proof.
     + pose proof (run_stream_sent rq r) as S. destruct (run_from rq Streaming r) as [e q]. simpl in *.
       rewrite S. reflexivity.
     + rewrite run_done. reflexivity.
-  - destruct (await_not_ack rq f A) as [o E]. rewrite E, run_done. reflexivity.
+  - destruct (await_invalid rq f A) as [o E]. rewrite E, run_done. reflexivity.
 Qed.
 
-(* the second event, if any, is the reception of the first frame *)
 Lemma events_head c rq fs :
   exists evs, t_events (run_ws c rq fs) = ESend (init_msg c) :: evs /\
               (fs = [] /\ evs = [] \/ exists evs', evs = ERecv :: evs').
@@ -345,98 +164,24 @@ Proof.
     + rewrite (await_ack rq f A). destruct (subscribe_msg rq).
       * destruct (run_from rq Streaming r). simpl. eauto 6.
       * rewrite run_done. simpl. eauto 6.
-    + destruct (await_not_ack rq f A) as [o E]. rewrite E, run_done. simpl. eauto 6.
+    + destruct (await_invalid rq f A) as [o E]. rewrite E, run_done. simpl. eauto 6.
 Qed.
 
+Definition nonterminal (a : list frame) : bool :=
+  forallb (fun f => negb (terminal (skind_of f))) a.
+
 (* non-terminal frames keep the machine streaming *)
-Lemma run_stream_app rq a r :
-  forallb (fun f => negb (terminal (skind_of f))) a = true ->
+Lemma run_stream_app rq a r : nonterminal a = true ->
   exists e1, run_from rq Streaming a = (e1, Streaming) /\
              run_from rq Streaming (a ++ r) =
                (e1 ++ fst (run_from rq Streaming r), snd (run_from rq Streaming r)).
 Proof.
-  induction a as [|f a IH]; simpl; intro H.
+  unfold nonterminal. induction a as [|f a IH]; simpl; intro H.
   - exists []. split; [reflexivity|]. destruct (run_from rq Streaming r); reflexivity.
   - apply andb_true_iff in H as [Hf Ha]. destruct (IH Ha) as (e1 & E1 & E2).
-    pose proof (stream_coarse rq f) as C.
+    rewrite stream_exact.
     destruct (skind_of f) eqn:K; simpl in Hf; try discriminate;
-      rewrite C, E1, E2; eexists; (split; [reflexivity|]); rewrite <- app_assoc; reflexivity.
-Qed.
-
-(* yields: no shape guard needed *)
-Lemma run_stream_yields rq r : g_nonnull r = true ->
-  yielded_of (fst (run_from rq Streaming r)) = yielded_of (fst (spec_stream r)).
-Proof.
-  unfold g_nonnull. induction r as [|f r IH]; [reflexivity|].
-  simpl. pose proof (stream_coarse rq f) as C.
-  destruct (skind_of f) eqn:K; simpl; rewrite ?K; simpl; intros T;
-    try (destruct C as [o C]; rewrite C, run_done; reflexivity);
-    try (rewrite C, run_done; reflexivity).
-  - rewrite C. destruct (run_from rq Streaming r) as [e q]; destruct (spec_stream r) as [e' o'].
-    simpl in *. rewrite <- IH; auto.
-  - apply andb_true_iff in T as [Td T]. rewrite C, Td.
-    destruct (run_from rq Streaming r) as [e q]; destruct (spec_stream r) as [e' o'].
-    simpl in *. rewrite <- IH; auto.
-  - rewrite C. destruct (run_from rq Streaming r) as [e q]; destruct (spec_stream r) as [e' o'].
-    simpl in *. rewrite <- IH; auto.
-  - rewrite C. destruct (run_from rq Streaming r) as [e q]; destruct (spec_stream r) as [e' o'].
-    simpl in *. rewrite <- IH; auto.
-  - rewrite C. destruct (run_from rq Streaming r) as [e q]; destruct (spec_stream r) as [e' o'].
-    simpl in *. rewrite <- IH; auto.
-Qed.
-
-(* the whole streaming run equals the specification under the two frame guards *)
-Lemma run_stream_conform rq r : forallb shape_ok (spec_prefix r) = true -> g_nonnull r = true ->
-  fst (run_from rq Streaming r) = fst (spec_stream r) /\
-  finish (snd (run_from rq Streaming r)) = snd (spec_stream r).
-Proof.
-  unfold g_nonnull. induction r as [|f r IH]; [split; reflexivity|].
-  simpl. pose proof (stream_coarse rq f) as C.
-  destruct (skind_of f) eqn:K; simpl; rewrite ?K; simpl; intros Sh T;
-    apply andb_true_iff in Sh as [Shf Sh].
-  - rewrite C. specialize (IH Sh T).
-    destruct (run_from rq Streaming r) as [e q]; destruct (spec_stream r) as [e' o'].
-    simpl in *. destruct IH; subst; auto.
-  - apply andb_true_iff in T as [Td T]. rewrite C, Td. specialize (IH Sh T).
-    destruct (run_from rq Streaming r) as [e q]; destruct (spec_stream r) as [e' o'].
-    simpl in *. destruct IH; subst; auto.
-  - rewrite C. specialize (IH Sh T).
-    destruct (run_from rq Streaming r) as [e q]; destruct (spec_stream r) as [e' o'].
-    simpl in *. destruct IH; subst; auto.
-  - rewrite C. specialize (IH Sh T).
-    destruct (run_from rq Streaming r) as [e q]; destruct (spec_stream r) as [e' o'].
-    simpl in *. destruct IH; subst; auto.
-  - rewrite C, run_done. split; reflexivity.
-  - rewrite (stream_error_exact rq f errs K), run_done. split; reflexivity.
-  - rewrite C. specialize (IH Sh T).
-    destruct (run_from rq Streaming r) as [e q]; destruct (spec_stream r) as [e' o'].
-    simpl in *. destruct IH; subst; auto.
-  - rewrite (stream_malformed_exact rq f Shf K), run_done. split; reflexivity.
-Qed.
-
-(* ------------------------------------------------------------------------------------------ *)
-(* the master statement: under the four guards the client IS the specified protocol machine     *)
-
-Definition g_all (fs : list frame) : bool :=
-  g_shape fs && match fs with f :: r => g_nonnull r | [] => true end.
-
-Definition same_obs (a b : trace) : Prop :=
-  t_connect a = t_connect b /\ t_events a = t_events b /\ erase_msg (t_fin a) = erase_msg (t_fin b).
-
-Lemma conform c rq fs : g_all fs = true -> same_obs (run_ws c rq fs) (spec_ws c rq fs).
-Proof.
-  unfold g_all, same_obs, run_ws, spec_ws, g_shape. intro G.
-  destruct fs as [|f r]; [simpl; auto|].
-  apply andb_true_iff in G as [G2 GT]. apply andb_true_iff in G2 as [Sf Sr].
-  simpl. destruct (is_ack f) eqn:A.
-  - rewrite (await_ack rq f A). unfold is_ack in A. destruct (skind_of f); try discriminate.
-    destruct (subscribe_msg rq) as [m|] eqn:M.
-    + destruct (run_stream_conform rq r Sr GT) as [E F].
-      destruct (run_from rq Streaming r) as [e q]; destruct (spec_stream r) as [e' o'].
-      simpl in *. subst. auto.
-    + rewrite run_done. simpl. auto.
-  - apply negb_true_iff in Sf. destruct (await_invalid rq f Sf A) as [m E]. rewrite E, run_done.
-    unfold is_ack in A. destruct (skind_of f); try discriminate; simpl; auto.
+      rewrite E1, E2; eexists; (split; [reflexivity|]); rewrite <- ?app_assoc; reflexivity.
 Qed.
 
 (* ------------------------------------------------------------------------------------------ *)
@@ -470,66 +215,8 @@ Qed.
 (* ------------------------------------------------------------------------------------------ *)
 (* corollaries used by Properties/C13.v                                                        *)
 
-Lemma fin_after_prefix c rq f a r m :
-  is_ack f = true -> subscribe_msg rq = Some m ->
-  forallb (fun f => negb (terminal (skind_of f))) a = true ->
-  t_fin (run_ws c rq (f :: a ++ r)) = finish (snd (run_from rq Streaming r)) /\
-  yielded_of (t_events (run_ws c rq (f :: a ++ r))) =
-    yielded_of (fst (run_from rq Streaming a)) ++ yielded_of (fst (run_from rq Streaming r)) /\
-  closes_of (t_events (run_ws c rq (f :: a ++ r))) =
-    closes_of (fst (run_from rq Streaming a)) + closes_of (fst (run_from rq Streaming r)) /\
-  consumed_of (t_events (run_ws c rq (f :: a ++ r))) =
-    S (consumed_of (fst (run_from rq Streaming a)) + consumed_of (fst (run_from rq Streaming r))).
-Proof.
-  intros A M N. unfold run_ws. simpl. rewrite (await_ack rq f A), M.
-  destruct (run_stream_app rq a r N) as (e1 & E1 & E2). rewrite E2, E1.
-  destruct (run_from rq Streaming r) as [e q]. simpl. split; [reflexivity|]. split; [|split].
-  - rewrite yielded_of_app. reflexivity.
-  - unfold closes_of. simpl. rewrite filter_app, app_length. reflexivity.
-  - unfold consumed_of. simpl. rewrite filter_app, app_length. reflexivity.
-Qed.
-
-(* non-terminal frames are each consumed once *)
-Lemma nonterminal_consumed rq a :
-  forallb (fun f => negb (terminal (skind_of f))) a = true ->
-  consumed_of (fst (run_from rq Streaming a)) = List.length a.
-Proof.
-  induction a as [|f a IH]; simpl; intro H; [reflexivity|].
-  apply andb_true_iff in H as [Hf Ha]. specialize (IH Ha).
-  pose proof (stream_coarse rq f) as C.
-  destruct (skind_of f) eqn:K; simpl in Hf; try discriminate; rewrite C;
-    destruct (run_from rq Streaming a) as [e q]; simpl in *;
-    try (destruct (nonnull d)); simpl; rewrite <- IH; reflexivity.
-Qed.
-
-(* non-terminal frames never call close() *)
-Lemma nonterminal_no_close rq a :
-  forallb (fun f => negb (terminal (skind_of f))) a = true ->
-  closes_of (fst (run_from rq Streaming a)) = 0.
-Proof.
-  induction a as [|f a IH]; simpl; intro H; [reflexivity|].
-  apply andb_true_iff in H as [Hf Ha]. specialize (IH Ha).
-  pose proof (stream_coarse rq f) as C.
-  destruct (skind_of f) eqn:K; simpl in Hf; try discriminate; rewrite C;
-    destruct (run_from rq Streaming a) as [e q]; simpl in *;
-    try (destruct (nonnull d)); simpl; exact IH.
-Qed.
-
-(* ... and yield exactly the truthy data of their next frames, in order *)
 Definition next_data (fs : list frame) : list json :=
   flat_map (fun f => match skind_of f with SNext d => [d] | _ => [] end) fs.
-
-Lemma nonterminal_yields rq a :
-  forallb (fun f => negb (terminal (skind_of f))) a = true ->
-  yielded_of (fst (run_from rq Streaming a)) = filter nonnull (next_data a).
-Proof.
-  induction a as [|f a IH]; simpl; intro H; [reflexivity|].
-  apply andb_true_iff in H as [Hf Ha]. specialize (IH Ha).
-  pose proof (stream_coarse rq f) as C. unfold next_data in *. simpl.
-  destruct (skind_of f) eqn:K; simpl in Hf; try discriminate; rewrite C;
-    destruct (run_from rq Streaming a) as [e q]; simpl in *;
-    try (destruct (nonnull d)); simpl; rewrite ?IH; reflexivity.
-Qed.
 
 Lemma spec_yields r : yielded_of (fst (spec_stream r)) = next_data (spec_prefix r).
 Proof.
@@ -538,16 +225,27 @@ Proof.
     destruct (spec_stream r) as [e o]; simpl in *; rewrite IH; reflexivity.
 Qed.
 
-Definition nonterminal (a : list frame) : bool :=
-  forallb (fun f => negb (terminal (skind_of f))) a.
+(* the data of a next frame is never null in the specification's reading *)
+Lemma snext_nonnull f d : skind_of f = SNext d -> nonnull d = true.
+Proof.
+  unfold skind_of. destruct f as [s|j]; [discriminate|]. destruct j; try discriminate.
+  destruct (jlookup "type" kv) as [t|]; [|discriminate]. destruct t; try discriminate.
+  destruct (mtype_of_string s) as [m|]; [|discriminate]. destruct m; try discriminate.
+  - destruct (jlookup "payload" kv) as [q|]; [|discriminate]. destruct q; try discriminate.
+    destruct (jlookup "data" kv0) as [x|]; [|discriminate].
+    destruct x; intro H; inversion H; try reflexivity.
+    destruct (jlookup "errors" kv0) as [e|]; [|discriminate]. destruct e; try discriminate.
+    destruct l; [discriminate|]. destruct (wf_errors (j :: l)); discriminate.
+  - destruct (jlookup "payload" kv) as [q|]; [|discriminate]. destruct q; try discriminate.
+    destruct (wf_errors l); discriminate.
+Qed.
 
-Lemma yields_partial c rq f r m : is_ack f = true -> subscribe_msg rq = Some m ->
-  g_nonnull r = true ->
+Lemma yields c rq f r m : is_ack f = true -> subscribe_msg rq = Some m ->
   yielded_of (t_events (run_ws c rq (f :: r))) = next_data (spec_prefix r).
 Proof.
-  intros A M T. unfold run_ws. simpl. rewrite (await_ack rq f A), M.
-  pose proof (run_stream_yields rq r T) as Y. rewrite spec_yields in Y.
-  destruct (run_from rq Streaming r) as [e q]. simpl in *. exact Y.
+  intros A M. unfold run_ws. simpl. rewrite (await_ack rq f A), M.
+  destruct (run_stream_conform rq r) as [E _]. rewrite <- spec_yields, <- E.
+  destruct (run_from rq Streaming r) as [e q]. reflexivity.
 Qed.
 
 Lemma silent_until_ack c rq fs : (forall f r, fs = f :: r -> is_ack f = false) ->
@@ -556,14 +254,14 @@ Proof.
   intro H. split.
   - rewrite sent_closed_form. destruct fs as [|f r]; [reflexivity|]. rewrite (H f r eq_refl). reflexivity.
   - unfold run_ws. destruct fs as [|f r]; [reflexivity|]. simpl.
-    destruct (await_not_ack rq f (H f r eq_refl)) as [o E]. rewrite E, run_done. reflexivity.
+    destruct (await_invalid rq f (H f r eq_refl)) as [o E]. rewrite E, run_done. reflexivity.
 Qed.
 
-Lemma first_not_ack c rq f r : type_crashes f = false -> is_ack f = false ->
+Lemma first_not_ack c rq f r : is_ack f = false ->
   exists msg, t_fin (run_ws c rq (f :: r)) = RaisedInvalid msg /\
               t_events (run_ws c rq (f :: r)) = [ESend (init_msg c); ERecv].
 Proof.
-  intros S A. destruct (await_invalid rq f S A) as [m E]. exists m.
+  intros A. destruct (await_invalid rq f A) as [m E]. exists m.
   unfold run_ws. simpl. rewrite E, run_done. split; reflexivity.
 Qed.
 
@@ -572,38 +270,105 @@ Lemma one_subscribe c rq f r m : is_ack f = true -> subscribe_msg rq = Some m ->
     init_msg c :: m :: repeat pong_msg (count_pings (spec_prefix r)).
 Proof. intros A M. rewrite sent_closed_form, A, M. reflexivity. Qed.
 
+(* after the ack and a prefix of non-terminal frames: what the rest of the run decides *)
+Lemma after_prefix c rq f a r m : is_ack f = true -> subscribe_msg rq = Some m -> nonterminal a = true ->
+  t_fin (run_ws c rq (f :: a ++ r)) = finish (snd (run_from rq Streaming r)) /\
+  t_events (run_ws c rq (f :: a ++ r)) =
+    ESend (init_msg c) :: ERecv :: ESend m :: fst (run_from rq Streaming a) ++ fst (run_from rq Streaming r).
+Proof.
+  intros A M N. unfold run_ws. simpl. rewrite (await_ack rq f A), M.
+  destruct (run_stream_app rq a r N) as (e1 & E1 & E2). rewrite E2, E1.
+  destruct (run_from rq Streaming r) as [e q]. simpl. split; reflexivity.
+Qed.
+
+Lemma nonterminal_events rq a : nonterminal a = true ->
+  yielded_of (fst (run_from rq Streaming a)) = next_data a /\
+  closes_of (fst (run_from rq Streaming a)) = 0 /\
+  consumed_of (fst (run_from rq Streaming a)) = List.length a.
+Proof.
+  unfold nonterminal, next_data. induction a as [|f a IH]; simpl; intro H; [auto|].
+  apply andb_true_iff in H as [Hf Ha]. destruct (IH Ha) as (I1 & I2 & I3).
+  rewrite stream_exact.
+  destruct (skind_of f) eqn:K; simpl in Hf; try discriminate;
+    destruct (run_from rq Streaming a) as [e q]; simpl in *;
+    unfold closes_of, consumed_of in *; simpl; rewrite ?I1; auto.
+Qed.
+
+Lemma terminal_outcome c rq f a x b m o ev : is_ack f = true -> subscribe_msg rq = Some m ->
+  nonterminal a = true -> step rq Streaming x = (Done o, ev) ->
+  t_fin (run_ws c rq (f :: a ++ x :: b)) = o /\
+  yielded_of (t_events (run_ws c rq (f :: a ++ x :: b))) = next_data a ++ yielded_of ev /\
+  closes_of (t_events (run_ws c rq (f :: a ++ x :: b))) = closes_of ev /\
+  consumed_of (t_events (run_ws c rq (f :: a ++ x :: b))) = S (List.length a + consumed_of ev).
+Proof.
+  intros A M N S. destruct (after_prefix c rq f a (x :: b) m A M N) as (F & E).
+  destruct (nonterminal_events rq a N) as (Y & C & R).
+  rewrite F, E. simpl. rewrite S, run_done. simpl. rewrite app_nil_r.
+  unfold closes_of, consumed_of in *. simpl. rewrite yielded_of_app, !filter_app, !app_length, Y, C, R.
+  auto.
+Qed.
+
 Lemma complete_finishes c rq f a x b m : is_ack f = true -> subscribe_msg rq = Some m ->
   nonterminal a = true -> skind_of x = SComplete ->
   t_fin (run_ws c rq (f :: a ++ x :: b)) = Finished /\
   closes_of (t_events (run_ws c rq (f :: a ++ x :: b))) = 1 /\
   consumed_of (t_events (run_ws c rq (f :: a ++ x :: b))) = S (S (List.length a)) /\
-  yielded_of (t_events (run_ws c rq (f :: a ++ x :: b))) = filter nonnull (next_data a).
+  yielded_of (t_events (run_ws c rq (f :: a ++ x :: b))) = next_data a.
 Proof.
-  intros A M N K. destruct (fin_after_prefix c rq f a (x :: b) m A M N) as (F & Y & C & R).
-  rewrite F, Y, C, R, (nonterminal_no_close rq a N), (nonterminal_yields rq a N),
-    (nonterminal_consumed rq a N).
-  simpl. pose proof (stream_coarse rq x) as SC. rewrite K in SC. rewrite SC, run_done. simpl.
-  rewrite app_nil_r. unfold consumed_of. simpl. repeat split; auto; lia.
+  intros A M N K. pose proof (stream_exact rq x) as S. rewrite K in S.
+  destruct (terminal_outcome c rq f a x b m _ _ A M N S) as (F & Y & C & R).
+  rewrite F, Y, C, R. simpl. rewrite app_nil_r. unfold closes_of, consumed_of. simpl.
+  repeat split; auto. lia.
 Qed.
 
 Lemma error_multi c rq f a x b m l : is_ack f = true -> subscribe_msg rq = Some m ->
   nonterminal a = true -> skind_of x = SError l ->
   t_fin (run_ws c rq (f :: a ++ x :: b)) = RaisedMulti l (frame_json x) /\
-  yielded_of (t_events (run_ws c rq (f :: a ++ x :: b))) = filter nonnull (next_data a).
+  yielded_of (t_events (run_ws c rq (f :: a ++ x :: b))) = next_data a.
 Proof.
-  intros A M N K. destruct (fin_after_prefix c rq f a (x :: b) m A M N) as (F & Y & _).
-  rewrite F, Y, (nonterminal_yields rq a N). simpl.
-  rewrite (stream_error_exact rq x l K), run_done. simpl. rewrite app_nil_r. auto.
+  intros A M N K. pose proof (stream_exact rq x) as S. rewrite K in S.
+  destruct (terminal_outcome c rq f a x b m _ _ A M N S) as (F & Y & _).
+  rewrite F, Y. simpl. rewrite app_nil_r. auto.
+Qed.
+
+Lemma next_errors_multi c rq f a x b m l : is_ack f = true -> subscribe_msg rq = Some m ->
+  nonterminal a = true -> skind_of x = SNextErrors l ->
+  t_fin (run_ws c rq (f :: a ++ x :: b)) = RaisedMulti l JNull /\
+  yielded_of (t_events (run_ws c rq (f :: a ++ x :: b))) = next_data a.
+Proof.
+  intros A M N K. pose proof (stream_exact rq x) as S. rewrite K in S.
+  destruct (terminal_outcome c rq f a x b m _ _ A M N S) as (F & Y & _).
+  rewrite F, Y. simpl. rewrite app_nil_r. auto.
 Qed.
 
 Lemma malformed_invalid c rq f a x b m : is_ack f = true -> subscribe_msg rq = Some m ->
-  nonterminal a = true -> skind_of x = SMalformed -> shape_ok x = true ->
+  nonterminal a = true -> skind_of x = SMalformed ->
   t_fin (run_ws c rq (f :: a ++ x :: b)) = RaisedInvalid (Some x) /\
-  yielded_of (t_events (run_ws c rq (f :: a ++ x :: b))) = filter nonnull (next_data a).
+  yielded_of (t_events (run_ws c rq (f :: a ++ x :: b))) = next_data a.
 Proof.
-  intros A M N K S. destruct (fin_after_prefix c rq f a (x :: b) m A M N) as (F & Y & _).
-  rewrite F, Y, (nonterminal_yields rq a N). simpl.
-  rewrite (stream_malformed_exact rq x S K), run_done. simpl. rewrite app_nil_r. auto.
+  intros A M N K. pose proof (stream_exact rq x) as S. rewrite K in S.
+  destruct (terminal_outcome c rq f a x b m _ _ A M N S) as (F & Y & _).
+  rewrite F, Y. simpl. rewrite app_nil_r. auto.
+Qed.
+
+(* no frame whatsoever can make the run end with a non-protocol exception *)
+Lemma stream_never_other rq r e : snd (run_from rq Streaming r) <> Done (RaisedOther e).
+Proof.
+  destruct (run_stream_conform rq r) as [_ F]. intro H. rewrite H in F. simpl in F.
+  clear H. revert F. induction r as [|f r IH]; simpl; [discriminate|].
+  destruct (skind_of f); try discriminate; destruct (spec_stream r) as [ev o]; simpl in *; auto.
+Qed.
+
+Lemma only_protocol_outcomes c rq fs e : t_fin (run_ws c rq fs) = RaisedOther e ->
+  e = SER_ERROR /\ subscribe_msg rq = None /\ exists f r, fs = f :: r /\ is_ack f = true.
+Proof.
+  unfold run_ws. destruct fs as [|f r]; [simpl; discriminate|]. simpl.
+  destruct (is_ack f) eqn:A.
+  - rewrite (await_ack rq f A). destruct (subscribe_msg rq) as [m|] eqn:M.
+    + pose proof (stream_never_other rq r e) as S. destruct (run_from rq Streaming r) as [ev q]. simpl in *.
+      intro H. destruct q; try discriminate. simpl in H. subst. contradiction.
+    + rewrite run_done. simpl. intro H. inversion H. repeat split; eauto.
+  - destruct (await_invalid rq f A) as [m E]. rewrite E, run_done. simpl. discriminate.
 Qed.
 
 (* ------------------------------------------------------------------------------------------ *)
@@ -614,59 +379,6 @@ Lemma history_independent cl calls :
 Proof.
   induction calls as [|[[k rq] fs] r [IH1 IH2]]; [split; reflexivity|].
   simpl. destruct (run_history cl r) as [ts cl'']. simpl in *. subst. split; reflexivity.
-Qed.
-
-(* ------------------------------------------------------------------------------------------ *)
-(* the run ends with a non-protocol exception exactly when a crash-class frame is consumed       *)
-Lemma stream_other rq r e : snd (run_from rq Streaming r) = Done (RaisedOther e) ->
-  exists a x b, r = a ++ x :: b /\ nonterminal a = true /\ crash_stream x = true.
-Proof.
-  unfold nonterminal. induction r as [|f r IH]; simpl; [discriminate|].
-  pose proof (stream_coarse rq f) as C. pose proof (crash_stream_iff rq f) as X.
-  destruct (skind_of f) eqn:K;
-    try (rewrite C; destruct (run_from rq Streaming r) as [ev q] eqn:R; simpl in *; intro H;
-         destruct (IH H) as (a & x & b & E & N & Cx); exists (f :: a), x, b; simpl;
-         rewrite K, E; simpl; auto).
-  - rewrite C, run_done. simpl. discriminate.
-  - destruct C as [o C]. rewrite C, run_done. simpl. intro H. inversion H; subst.
-    exists [], f, r. repeat split; auto. apply X. eauto.
-  - destruct C as [o C]. rewrite C, run_done. simpl. intro H. inversion H; subst.
-    exists [], f, r. repeat split; auto. apply X. eauto.
-Qed.
-
-Lemma only_protocol_outcomes c rq fs e : t_fin (run_ws c rq fs) = RaisedOther e ->
-  (e = SER_ERROR /\ subscribe_msg rq = None /\ exists f r, fs = f :: r /\ is_ack f = true)
-  \/ (exists f r, fs = f :: r /\ type_crashes f = true)
-  \/ (exists f a x b, fs = f :: a ++ x :: b /\ is_ack f = true /\ nonterminal a = true /\ crash_stream x = true).
-Proof.
-  unfold run_ws. destruct fs as [|f r]; [simpl; discriminate|]. simpl.
-  destruct (is_ack f) eqn:A.
-  - rewrite (await_ack rq f A). destruct (subscribe_msg rq) as [m|] eqn:M.
-    + pose proof (stream_other rq r e) as S. destruct (run_from rq Streaming r) as [ev q]. simpl in *.
-      intro H. destruct q; try discriminate. simpl in H. subst.
-      destruct (S eq_refl) as (a & x & b & E & N & Cx). right. right. exists f, a, x, b. subst. auto.
-    + rewrite run_done. simpl. intro H. inversion H. left. repeat split; eauto.
-  - unfold step. destruct (msg_type f) eqn:T.
-    + rewrite run_done. simpl. discriminate.
-    + rewrite run_done. simpl. intros _. right. left. exists f, r. split; auto.
-      apply type_crashes_iff. eauto.
-    + destruct t; rewrite ?run_done; simpl; try discriminate.
-      assert (is_ack f = true) by (apply ack_iff; eauto). congruence.
-Qed.
-
-Lemma crash_consumed_raises c rq f a x b m : is_ack f = true -> subscribe_msg rq = Some m ->
-  nonterminal a = true -> crash_stream x = true ->
-  exists e, t_fin (run_ws c rq (f :: a ++ x :: b)) = RaisedOther e.
-Proof.
-  intros A M N Cx. destruct (fin_after_prefix c rq f a (x :: b) m A M N) as (F & _).
-  apply (crash_stream_iff rq) in Cx as [e E]. exists e. rewrite F. simpl. rewrite E, run_done. reflexivity.
-Qed.
-
-Lemma first_crash_raises c rq f r : type_crashes f = true ->
-  exists e, t_fin (run_ws c rq (f :: r)) = RaisedOther e.
-Proof.
-  intro H. apply type_crashes_iff in H as [e H]. exists e. unfold run_ws. simpl. unfold step. rewrite H.
-  rewrite run_done. reflexivity.
 Qed.
 
 (* ------------------------------------------------------------------------------------------ *)
